@@ -20,13 +20,13 @@ Definition HDR : nat := N.to_nat 65536.     (* the header scan reads at most Seg
 (* plaintext generators; the harness has the same formulas (encx.PGen) *)
 Inductive pgen :=
 | PExp (bs : list N)
-| PSeq (start len : N)                 (* byte i = (start + i + 3 * (i / 256)) mod 256 *)
+| PSeq (start len : N)   (* byte i = (start + i + 3 * (i / 256) + 7 * (i / 65536)) mod 256 *)
 | PRep (pat : list N) (count : N).     (* bytes.Repeat(pat, count) *)
 
 Fixpoint seq_bytes (n : nat) (start i : N) : list N :=
   match n with
   | O => []
-  | S n' => ((start + i + 3 * (i / 256)) mod 256)%N :: seq_bytes n' start (i + 1)%N
+  | S n' => ((start + i + 3 * (i / 256) + 7 * (i / 65536)) mod 256)%N :: seq_bytes n' start (i + 1)%N
   end.
 
 Fixpoint rep_bytes (n : nat) (pat : list N) : list N :=
